@@ -6,8 +6,25 @@ from .. import cfggen, cfgrun, cfgstream, core, ovgen, schemafam as F
 RULE = ("accepted texts of the schema family with at least one section; override lists of up to 4 specifiers addressing "
         "existing and non-existing keys and sections by name, by type and in mixed case at depths 1..3 with convertible "
         "and unconvertible values; real load with overrides vs real load of the text edited by the harness following the "
-        "property statement; plus specifier syntax at add time. non-trivial = at least one override reaching depth>=1; "
+        "property statement; the outcome compared is the whole result of the load: the configuration AND the composite handler "
+        "(schemas with handler attributes on keys, multikeys, sections and multisections of the schema and of the section types, "
+        "on about half / on all of the items: number of entries and the (name, value) sequence delivered to recording "
+        "callables); plus specifier syntax at add time. non-trivial = at least one override reaching depth>=1; "
         "distinct by (schema, text, overrides)")
+
+
+def handler_log(h, hnames):
+    """what the second half of a load result delivers: (number of entries, [(handler name, value)] in call order) with a
+    complete map of recording callables; a refused map is part of the outcome"""
+    import ZConfig
+    rec = cfgrun.Recorder()
+    try:
+        h({n: rec.fn(n) for n in hnames})
+    except ZConfig.ConfigurationError:
+        return (len(h), "refused")
+    except Exception as e:
+        return (len(h), "raised " + type(e).__name__)
+    return (len(h), [[n, cfgrun.describe(v)] for n, v in rec.calls])
 
 
 def first_match(items, comp):
@@ -55,9 +72,16 @@ def edit(elab, items, specs):
 
 def run(ctx):
     obligations, discharged, names = core.standard_prelude(ctx, ["ZCV.Props.C14"])
-    n_s, n_t = (700, 40) if ctx.thorough() else (70, 20)
+    n_s, n_t = (700, 40) if ctx.thorough() else (52, 20)
+    n_h, n_ha = (300, 150) if ctx.thorough() else (16, 8)
     rng = ctx.rng
     base = cfgstream.gen_cases(ctx, n_s, n_t, nfaults=(0,), plain=True, systematic=False)
+    # the same over schemas that declare handlers (handler='...' on keys, multikeys, sections, multisections at top level and
+    # inside the section types): the load result is the pair (configuration, composite handler), and "the same outcome as
+    # the edited text" speaks about both halves - every matcher of a load, the ones of sections addressed by an override
+    # included, contributes its entries.  Handlers on about half of the items, and on every item.
+    base += cfgstream.gen_cases(ctx, n_h, n_t, handlers=True, nfaults=(0,), plain=True, systematic=False)
+    base += cfgstream.gen_cases(ctx, n_ha, n_t, handlers=True, phandler=1.0, nfaults=(0,), plain=True, systematic=False)
     cfgstream.evaluate(ctx, base)
     ov, ed = [], []
     for c in base:
@@ -95,8 +119,12 @@ def run(ctx):
                 why = "value"
             elif a.model[0] == "cfg" and a.model[1] != a.out[1]:
                 why = "error kind"
+            if why is None and a.model[0] == "ok" and a.hnames:
+                hw = cfgrun.compare_load(a.model, a.out, a.cfg, a.handler, a.hnames)
+                if hw:
+                    why = "handlers: " + hw
             if why:
-                ctx.disagree("override-load:" + why, a.replay(), a.out, a.model[:6])
+                ctx.disagree("override-load:" + why.split(":")[0], a.replay(), [a.out, why], a.model[:6])
         if a.out[0] == "internal":
             continue      # C07
         if b.lines is None:
@@ -113,6 +141,21 @@ def run(ctx):
                              value_with_overrides=cfgrun.describe(a.cfg) if a.cfg is not None else None,
                              value_edited=cfgrun.describe(b.cfg) if b.cfg is not None else None),
                         signature="C14:%s-vs-edited-%s" % (a.out[0], b.out[0]))
+        elif a.out[0] == "ok":
+            # second half of the outcome: the composite handler (entries registered by every matcher of the load)
+            la, lb = handler_log(a.handler, a.hnames), handler_log(b.handler, b.hnames)
+            ctx.count("handler-entries:%s" % (min(lb[0], 10) if a.hnames else "schema-without-handlers"))
+            if a.hnames:
+                ctx.count("handler-loads-compared")
+                if depth >= 2 and lb[0]:
+                    ctx.count("handler-loads-compared:override-below-top-level")
+            if la != lb:
+                names = [[x[0] for x in l[1]] if isinstance(l[1], list) else l[1] for l in (la, lb)]
+                ctx.violate("loading with overrides %r gives a handler with %d entries delivering %r; the hand-edited text gives %d entries delivering %r"
+                            % (a.overrides, la[0], names[0], lb[0], names[1]),
+                            dict(a.replay(), edited_lines=b.lines, handler_names=list(a.hnames),
+                                 handlers_with_overrides=list(la), handlers_edited=list(lb)),
+                            signature="C14:handlers-differ-from-edited:%s" % ("count" if la[0] != lb[0] else "calls"))
         elif b.out[0] == "cfg" and b.out[1] == "conversion" and a.out[1] != "conversion":
             ctx.violate("an unconvertible override value is reported as %s, not as a conversion error" % a.out[1],
                         dict(a.replay(), edited_lines=b.lines), signature="C14:bad-value-kind:" + a.out[1])
